@@ -227,3 +227,30 @@ def setItemSpec(a: "AttrList", name: Str, value: "AttrArg") -> "AttrList":
             return a
         case SomeAV(v):
             return aset(a, normName(name), v)
+
+
+@spec
+def isVBool(x: "AttrArg") -> Bool:
+    match x:
+        case VBool(b):
+            return True
+        case _:
+            return False
+
+
+@spec
+def boolOf(x: "AttrArg") -> Bool:
+    match x:
+        case VBool(b):
+            return b
+        case _:
+            return False
+
+
+@spec
+def isANil(a: "AttrList") -> Bool:
+    match a:
+        case ANil():
+            return True
+        case ACons(k, v, tl):
+            return False
